@@ -21,7 +21,6 @@ import (
 	"time"
 
 	"github.com/prometheus/client_golang/prometheus"
-	"github.com/wi1dcard/fingerproxy"
 	"github.com/wi1dcard/fingerproxy/pkg/fingerprint"
 	"github.com/wi1dcard/fingerproxy/pkg/http2"
 	"github.com/wi1dcard/fingerproxy/pkg/proxyserver"
@@ -208,6 +207,9 @@ type ProxyOpts struct {
 	FlushInterval       time.Duration
 	Ctx                 context.Context
 	Listener            net.Listener // default: a fresh *Listener
+	// Build, when set, constructs the server (binary-wiring level: fingerproxy.defaultProxyServer with
+	// parsed CLI flags); everything else in ProxyOpts except Listener/BackendRespond is then ignored.
+	Build func(ctx context.Context, b *Backend) *proxyserver.Server
 }
 
 type Proxy struct {
@@ -249,12 +251,26 @@ func DefaultInjectors(maxPriorityFrames uint) []reverseproxy.HeaderInjector {
 func StartProxy(o ProxyOpts) *Proxy {
 	p := &Proxy{Backend: NewBackend(), ServeErr: make(chan error, 1)}
 	p.Backend.Respond = o.BackendRespond
+	if o.Build != nil {
+		base := o.Ctx
+		if base == nil {
+			base = context.Background()
+		}
+		ctx, cancel := context.WithCancel(base)
+		p.Cancel = cancel
+		p.Log = &SyncBuffer{}
+		p.Transport = &http.Transport{}
+		p.Srv = o.Build(ctx, p.Backend)
+		p.Ln = NewListener()
+		go func() { p.ServeErr <- p.Srv.Serve(p.Ln) }()
+		return p
+	}
 	inj := o.Injectors
 	if inj == nil {
 		if o.MaxPriorityFrames != nil {
 			inj = DefaultInjectors(*o.MaxPriorityFrames)
 		} else {
-			inj = fingerproxy.DefaultHeaderInjectors()
+			inj = DefaultInjectors(^uint(0))
 		}
 	}
 	p.Log = o.LogBuf
